@@ -151,4 +151,164 @@ theorem reverse_no_panic (file buf : Bytes) (hb : buf ≠ []) (items : List Item
       exact ⟨⟨by simp, this.1⟩, ⟨by simp, this.2.1⟩, ⟨by simp, this.2.2⟩⟩
     · rw [if_neg hl]; simp
 
+/-! ### entries written by gitoxide parse back to the same entries -/
+
+/-- The domain of the round trip: 20-byte ids and a committer signature in canonical form (the
+email has no surrounding whitespace — the signature parser trims it —, the seconds fit i64, the
+offset is minute-granular and agrees with the stored sign — only `±HHMM` is written). Everything
+else is the writer's own validation (`writeLine e = some _`): no `<`, `>`, newline in name and
+email, at most 99 hours of offset, no newline in the message. -/
+def RoundTripDomain (e : Entry) : Prop :=
+  e.oldId.length = 20 ∧ e.newId.length = 20 ∧ EmailTrimmed e.email ∧ TimeCanonical e.time
+
+/-- `line_roundtrip`: what `Line::write_to` writes is one newline-terminated, newline-free line
+that `LineRef::from_bytes` parses back to the same entry — for ANY message bytes without a newline
+(including `>`, tabs, carriage returns, invalid UTF-8) and any legal name / email. -/
+theorem line_roundtrip (e : Entry) (bytes : Bytes) (hd : RoundTripDomain e)
+    (hw : writeLine e = some bytes) :
+    ∃ body, bytes = body ++ [10] ∧ (10 : UInt8) ∉ body ∧ parseLine body = some e.toLine := by
+  obtain ⟨hold, hnew, htrim, hcanon⟩ := hd
+  unfold writeLine at hw
+  cases hs : writeSig e.name e.email e.time with
+  | none => simp [hs] at hw
+  | some sig =>
+    obtain ⟨hn, he, tb, htw, hsig⟩ := writeSig_some hs
+    simp only [hs] at hw
+    cases hm : e.msg.contains 10 with
+    | true => rw [hm] at hw; simp only [if_true] at hw; exact absurd hw (by simp)
+    | false =>
+      rw [hm] at hw
+      simp only [Bool.false_eq_true, if_false, Option.some.injEq] at hw
+      have hmsg : (10 : UInt8) ∉ e.msg := by
+        intro h
+        have : e.msg.contains 10 = true := by simp [h]
+        rw [hm] at this; exact absurd this (by decide)
+      have hH1len : (hexBytes e.oldId).length = 40 := by rw [hexBytes_length, hold]
+      have hH2len : (hexBytes e.newId).length = 40 := by rw [hexBytes_length, hnew]
+      refine ⟨hexBytes e.oldId ++ 32 :: (hexBytes e.newId ++ 32 ::
+          (e.name ++ 32 :: 60 :: (e.email ++ 62 :: 32 :: tb))) ++ 9 :: e.msg, ?_, ?_, ?_⟩
+      · rw [← hw, hsig]; simp
+      · have := assembled_nlfree (hexBytes_all e.oldId) (hexBytes_all e.newId) hn he htw
+        simp only [List.mem_append, List.mem_cons, not_or] at this ⊢
+        exact ⟨this, by decide, hmsg⟩
+      · exact parseLine_assembled _ _ _ _ tb _ e.msg e.time (hexBytes_all _) hH1len
+          (hexBytes_all _) hH2len hn he htrim htw hcanon (Or.inr ⟨rfl, hmsg⟩)
+
+-- non-vacuity: a message with `>`, a tab and a trailing carriage return; negative offset
+example : writeLine ⟨List.replicate 20 0, List.replicate 20 171, [65, 32, 85], [97, 64, 98],
+    ⟨1700000000, -5400, true⟩, [97, 32, 45, 62, 9, 98, 13]⟩ ≠ none := by decide +kernel
+example : RoundTripDomain ⟨List.replicate 20 0, List.replicate 20 171, [65, 32, 85], [97, 64, 98],
+    ⟨1700000000, -5400, true⟩, [97, 32, 45, 62, 9, 98, 13]⟩ := by
+  refine ⟨by decide, by decide, ⟨?_, ?_⟩, by decide⟩ <;>
+    (intro x hx; simp at hx; subst hx; decide)
+
+/-- The same for what the reflog appender (`reflog_create_or_append`) writes. It does not check
+the message for newlines (a documented precondition of `LogChange::message`), hence the extra
+hypothesis. -/
+theorem append_roundtrip (e : Entry) (bytes : Bytes) (hd : RoundTripDomain e)
+    (hmsg : (10 : UInt8) ∉ e.msg) (hw : appendLine e = some bytes) :
+    ∃ body, bytes = body ++ [10] ∧ (10 : UInt8) ∉ body ∧ parseLine body = some e.toLine := by
+  obtain ⟨hold, hnew, htrim, hcanon⟩ := hd
+  unfold appendLine at hw
+  cases hs : writeSig e.name e.email e.time with
+  | none => simp [hs] at hw
+  | some sig =>
+    obtain ⟨hn, he, tb, htw, hsig⟩ := writeSig_some hs
+    simp only [hs, Option.some.injEq] at hw
+    have hH1len : (hexBytes e.oldId).length = 40 := by rw [hexBytes_length, hold]
+    have hH2len : (hexBytes e.newId).length = 40 := by rw [hexBytes_length, hnew]
+    have hfree := assembled_nlfree (hexBytes_all e.oldId) (hexBytes_all e.newId) hn he htw
+    by_cases hempty : e.msg = []
+    · refine ⟨hexBytes e.oldId ++ 32 :: (hexBytes e.newId ++ 32 ::
+          (e.name ++ 32 :: 60 :: (e.email ++ 62 :: 32 :: tb))) ++ [], ?_, ?_, ?_⟩
+      · rw [← hw, hsig, hempty]; simp
+      · simpa using hfree
+      · have := parseLine_assembled _ _ _ _ tb [] [] e.time (hexBytes_all e.oldId) hH1len
+          (hexBytes_all e.newId) hH2len hn he htrim htw hcanon (Or.inl ⟨rfl, rfl⟩)
+        rw [this]; simp [Entry.toLine, hempty]
+    · have hne : e.msg.isEmpty = false := by
+        cases hm : e.msg with
+        | nil => exact absurd hm hempty
+        | cons _ _ => rfl
+      refine ⟨hexBytes e.oldId ++ 32 :: (hexBytes e.newId ++ 32 ::
+          (e.name ++ 32 :: 60 :: (e.email ++ 62 :: 32 :: tb))) ++ 9 :: e.msg, ?_, ?_, ?_⟩
+      · rw [← hw, hsig, hne]; simp
+      · simp only [List.mem_append, List.mem_cons, not_or] at hfree ⊢
+        exact ⟨hfree, by decide, hmsg⟩
+      · exact parseLine_assembled _ _ _ _ tb _ e.msg e.time (hexBytes_all _) hH1len
+          (hexBytes_all _) hH2len hn he htrim htw hcanon (Or.inr ⟨rfl, hmsg⟩)
+
+/-- Appending entries one after the other (`Line::write_to` each). -/
+def writeLog : List Entry → Option Bytes
+  | [] => some []
+  | e :: es =>
+    match writeLine e, writeLog es with
+    | some a, some b => some (a ++ b)
+    | _, _ => none
+
+/-- A log written entry by entry is the concatenation of newline-terminated, newline-free lines,
+one per entry, each parsing back to its entry. -/
+theorem written_log_lines (es : List Entry) (file : Bytes) (hd : ∀ e ∈ es, RoundTripDomain e)
+    (hw : writeLog es = some file) :
+    ∃ bodies : List Bytes, file = bodies.flatMap (· ++ [10]) ∧ (∀ l ∈ bodies, (10 : UInt8) ∉ l)
+      ∧ bodies.map parseLine = es.map (fun e => some e.toLine) := by
+  induction es generalizing file with
+  | nil =>
+    simp only [writeLog, Option.some.injEq] at hw
+    exact ⟨[], by simp [← hw], by simp, rfl⟩
+  | cons e es ih =>
+    unfold writeLog at hw
+    cases h1 : writeLine e with
+    | none => simp [h1] at hw
+    | some a =>
+      cases h2 : writeLog es with
+      | none => simp [h1, h2] at hw
+      | some b =>
+        simp only [h1, h2, Option.some.injEq] at hw
+        obtain ⟨body, hb1, hb2, hb3⟩ := line_roundtrip e a (hd e (by simp)) h1
+        obtain ⟨bodies, hf, hfree, hparse⟩ := ih b (fun x hx => hd x (by simp [hx])) h2
+        refine ⟨body :: bodies, ?_, ?_, ?_⟩
+        · rw [← hw, hb1, hf]; simp
+        · intro l hl
+          rcases List.mem_cons.1 hl with rfl | hl
+          · exact hb2
+          · exact hfree l hl
+        · simp only [List.map_cons, hb3, hparse]
+
+/-- **Both sentences of the property together**: a log made of entries written by gitoxide gives,
+read forwards, the entries; read backwards with ANY non-empty window at least as large as its
+longest line, the entries in reverse order. -/
+theorem written_log_reads_back (es : List Entry) (file buf : Bytes)
+    (hd : ∀ e ∈ es, RoundTripDomain e) (hw : writeLog es = some file)
+    (hb : buf ≠ []) (hfit : ∀ p ∈ forward file, p.1.length ≤ buf.length) :
+    (forward file).map (fun p => parseLine p.1) = es.map (fun e => some e.toLine)
+    ∧ ∃ items, revAll file buf = some items
+        ∧ items.map (fun it => match it with | .raw l _ => parseLine l | _ => none)
+            = es.reverse.map (fun e => some e.toLine) := by
+  obtain ⟨bodies, hf, hfree, hparse⟩ := written_log_lines es file hd hw
+  have hfwd : (forward file).map (·.1) = bodies := by
+    unfold forward
+    rw [hf, splitLines_terminated bodies hfree]
+    generalize 0 = n
+    clear hf hparse hfree
+    induction bodies generalizing n with
+    | nil => rfl
+    | cons l ls ih => simp only [enumFrom, List.map_cons]; rw [ih]
+  refine ⟨?_, rawFrom 0 bodies.reverse, ?_, ?_⟩
+  · rw [← hparse, ← hfwd, List.map_map]; rfl
+  · rw [reverse_eq_forward_reversed file buf hb hfit, hfwd]
+  · have : ∀ (c : Nat) (rl : List Bytes),
+        (rawFrom c rl).map (fun it => match it with | .raw l _ => parseLine l | _ => none)
+          = rl.map parseLine := by
+      intro c rl
+      induction rl generalizing c with
+      | nil => rfl
+      | cons l rest ih => simp only [rawFrom, List.map_cons, ih]
+    rw [this, List.map_reverse, hparse, List.map_reverse]
+
+-- non-vacuity: a two-entry log exists and satisfies the hypotheses
+example : (writeLog [⟨List.replicate 20 0, List.replicate 20 171, [65], [97, 64, 98],
+    ⟨1700000000, 3600, false⟩, [120, 62]⟩, ⟨List.replicate 20 171, List.replicate 20 1, [], [],
+    ⟨-5, 0, true⟩, []⟩]).isSome = true := by decide +kernel
+
 end GixModel.Props.C21
